@@ -4,7 +4,7 @@ import Grass.Proto
 
   Mirrors (file:line of /repo at the time of writing)
     crates/compiler/src/value/mod.rs:48      `impl PartialEq for Value`
-    crates/compiler/src/value/mod.rs:388     `Value::not_equals`   (only caller: `SassMap::remove`)
+    (`Value::not_equals`, value/mod.rs:388 until /repo 61f3ffb, is gone; modelled for the old variants)
     crates/compiler/src/value/map.rs         `SassMap` (eq :13, get :42, remove :62, merge :66, contains :84, insert :96)
     crates/compiler/src/value/sass_number.rs:245  `impl PartialEq for SassNumber`
     crates/compiler/src/value/number.rs:40   `fuzzy_equals`, :158 `Number::convert`
@@ -147,26 +147,32 @@ def fuzzyN : Num → Num → Bool
 def conv (n : Num) (frm to : U) : Num :=
   if frm = .none ∨ to = .none ∨ frm = to then n else n.scale (factor frm to)
 
-/-- Switches, one per known deviation.  `now` is /repo as it stands, `spec` is what the
-    property demands, `pinned` is the tree as first found. -/
+/-- Switches, one per deviation found.  `now` is /repo as it stands (all of D6, D20, K1, K2, K4
+    are repaired there, so it coincides with `spec`, what the property demands); `beforeFix` is the
+    tree after the D6/D20 repairs and before the K1/K2/K4 ones; `pinned` is the tree as first found. -/
 structure Sw where
   /-- D6 (fixed): the `List == ArgList` arm exists (`value/mod.rs:76`). -/
   argSym : Bool
   /-- D20 (fixed): numbers of *different* convertible units are compared in the canonical unit
       of their kind (`sass_number.rs:255`); `false` = right operand converted into the left unit. -/
   canon : Bool
-  /-- K1 (open): numbers of the *same* convertible unit are also compared in the canonical unit. -/
+  /-- K1 (fixed, /repo 312c562): numbers of the *same* convertible unit are also compared in the
+      canonical unit (`sass_number.rs:255`); `false` = at the unit's own scale. -/
   canonSame : Bool
-  /-- K2/K3 (open): an argument list is compared as the unbracketed comma list of its
-      positional elements (keywords and the hidden separator ignored). -/
+  /-- K2 (fixed, /repo d046d73): an argument list is compared as the unbracketed comma list of its
+      positional elements (`value/mod.rs:105` requires `Brackets::None`, `arglist.rs:16` compares
+      `elems` only); `false` = brackets of the list ignored, keywords and hidden separator compared
+      between two argument lists. -/
   argAsList : Bool
-  /-- K4 (open): `SassMap::remove` drops the keys that are `==` to the probe
-      (`false` = it keeps the keys for which `not_equals` holds, `map.rs:63`). -/
+  /-- K4 (fixed, /repo 61f3ffb): `SassMap::remove` drops the keys that are `==` to the probe
+      (`map.rs:63` `retain(|k| k.node != *key)`); `false` = it kept the keys for which the since
+      deleted second inequality routine `Value::not_equals` held. -/
   removeEq : Bool
   deriving DecidableEq, Repr, Inhabited
 
-def Sw.now : Sw := ⟨true, true, false, false, false⟩
+def Sw.now : Sw := ⟨true, true, true, true, true⟩
 def Sw.spec : Sw := ⟨true, true, true, true, true⟩
+def Sw.beforeFix : Sw := ⟨true, true, false, false, false⟩
 def Sw.pinned : Sw := ⟨false, false, false, false, false⟩
 
 /-- `impl PartialEq for SassNumber` (sass_number.rs:245). -/
@@ -180,7 +186,8 @@ def numEq (sw : Sw) (n1 : Num) (u1 : U) (n2 : Num) (u2 : U) : Bool :=
       else fuzzyN n1 (conv n2 u2 u1)
     | none => fuzzyN n1 (conv n2 u2 u1)
 
-/-- The number arm of `Value::not_equals` (mod.rs:394–415); still converts right into left. -/
+/-- The number arm of the deleted `Value::not_equals` (mod.rs:394–415 before 61f3ffb); it
+    converted right into left. -/
 def numNotEquals (sw : Sw) (n1 : Num) (u1 : U) (n2 : Num) (u2 : U) : Bool :=
   if n1.isNaN || n2.isNaN then !(numEq sw n1 u1 n2 u2)
   else if !comparable u1 u2 then true
@@ -290,7 +297,8 @@ mutual
 end
 
 mutual
-  /-- `Value::not_equals` (value/mod.rs:388). -/
+  /-- `Value::not_equals` as it was before /repo 61f3ffb deleted it (value/mod.rs:388 of that
+      tree); only the `removeEq = false` variants use it. -/
   def notEquals (sw : Sw) : Value → Value → Bool
     | .str s1 _, .str s2 _ => decide (s1 ≠ s2)
     | .str _ _, _ => true
@@ -695,6 +703,7 @@ end
 
 def parseSw? (s : String) : Option Sw :=
   if s == "now" then some .now else if s == "spec" then some .spec
+  else if s == "beforefix" then some .beforeFix
   else if s == "pinned" then some .pinned else none
 
 def optNatStr : Option Nat → String
